@@ -1139,6 +1139,10 @@ def model_cases_for(case, r):
                     # certificate of the reference rule of this level on its reference interval (deduplicated per run)
                     rs, re_ = (F(0), F(1)) if f1 == 'leja' else (F(-1), F(1))
                     out.append(('ref%d' % d, (1, [ref[0], ref[1], rs, re_, min(degs[d], degree_cap(len(ref[0]))), RTOL[f1]])))
+                    if f1 == 'leja' and len(ref[0]) <= 13:
+                        # the linear system LejaGrid1D.compute_1D_quad_weights solves (shifted Legendre basis, right-hand side e_0) on
+                        # the reference rule: C08_leja_solution_is_interpolatory_bounded makes its solution the interpolatory rule
+                        out.append(('reflejasys%d' % d, (11, [ref[0], ref[1], RTOL[f1]])))
                     near = max(abs(F(case['s'][d])), abs(F(case['e'][d]))) <= 64 * (F(case['e'][d]) - F(case['s'][d]))
                     if f1 in ('cc', 'leja') and bnds[d] and 2 <= len(r['coords'][d]) <= 5 and near:
                         out.append(('interp%d' % d, (6, [r['coords'][d], r['w1'][d], F(case['s'][d]), F(case['e'][d]), RTOL[f1]])))
@@ -1351,7 +1355,11 @@ def judge(chk, case, st, r, mres, report_case=None):
                         break
     # ---- verified checkers on implementation outputs
     for tag, m in mres.items():
-        if tag.startswith('mom') or tag.startswith('ref'):
+        if tag.startswith('reflejasys'):
+            if sx.is_err(m) or m[0] != 1:
+                diffs.append(('checker:leja_system_ok', 'the reference Leja rule of level %d does not solve the system sum_i w_i P_j(x_i) = [j = 0] '
+                              '(residuals %s)' % (case['lv'][int(tag[10:])], [float(x) for x in qq(m[1])][:8] if not sx.is_err(m) else m)))
+        elif tag.startswith('mom') or tag.startswith('ref'):
             d = int(tag[3:])
             if sx.is_err(m) or m[0] != 1:
                 what = 'the 1D rule returned by the implementation' if tag.startswith('mom') else \
@@ -1527,6 +1535,8 @@ def run(chk):
                 if t.startswith(('aff', 'ccf', 'interp', 'tensor')):
                     chk.count('model_path=%s' % t.rstrip('0123456789'))
             nchk += sum(1 for t in m if t.startswith(('mom', 'ref', 'interp')) or t == 'nd')
+            if any(t.startswith('reflejasys') for t in m):
+                chk.count('model_path=leja_system')
             if len(c['lv']) >= 2 or max(c['lv']) >= 2:
                 keys.append(key_of(c))
         if st == 'ok' and nv == 0:
